@@ -342,8 +342,11 @@ namespace smt
         else if (const auto at_expr = exprs.find(s_expr); at_expr != exprs.cend()) // the expression already exists..
             return at_expr->second;
         else
-        { // we need to create a new variable..
-            const auto ctr = new_at_most_one(ls);
+        { // we need to create a new variable (the at-most-one literal cannot be reused, since it would also get the at-least-one meaning)..
+            const auto amo = new_at_most_one(ls);
+            const auto ctr = lit(new_var());
+            if (!new_clause({!ctr, amo}))
+                return FALSE_lit;
             ls.push_back(!ctr);
             if (!new_clause(std::move(ls)))
                 return FALSE_lit;
